@@ -21,15 +21,15 @@ Record wellformed (w : rows) : Prop := mkWf {
 
 Lemma convert_good : forall w n, convert w = Ok n -> wellformed w ->
   good (final_nodes w) (links_of_w w) (eqpts_of_w w) /\
-  exists ef wf ee we, built (final_nodes w) (links_of_w w) (eqpts_of_w w) (w_roadms w) n ef wf ee we.
+  exists re ef wf ee we, built (final_nodes w) (links_of_w w) (eqpts_of_w w) (w_roadms w) n re ef wf ee we.
 Proof.
   intros w n H [W1 W3]. destruct (convert_ok_sane w n H) as [S B].
   pose proof (sane_good _ _ _ S W1 W3) as G. split; [exact G|].
   apply build_inv; [apply (g_cities _ _ _ G) | apply (g_links _ _ _ G) | apply (g_loops _ _ _ G) | exact B].
 Qed.
 
-Lemma built_conns : forall ns ls es rs n ef wf ee we, built ns ls es rs n ef wf ee we -> connections n = conns ns ls es.
-Proof. intros ns ls es rs n ef wf ee we B. destruct B as [_ _ _ _ _ B6]. exact B6. Qed.
+Lemma built_conns : forall ns ls es rs n re ef wf ee we, built ns ls es rs n re ef wf ee we -> connections n = conns ns ls es.
+Proof. intros ns ls es rs n re ef wf ee we B. destruct B as [_ _ _ _ _ _ B6]. exact B6. Qed.
 
 Definition uids (n : net) : list uid := map el_uid (elements n).
 Definition names (n : net) : list string := map render (uids n).
@@ -51,10 +51,10 @@ Theorem sheet_structure : forall w n, convert w = Ok n -> wellformed w ->
   (* every fibre / amplifier / fused element has exactly one successor and one predecessor *)
   (forall u, In u (uids n) -> is_line u -> one_succ (connections n) u /\ one_pred (connections n) u).
 Proof.
-  intros w n H W ns ls es. destruct (convert_good w n H W) as [G [ef [wf [ee [we B]]]]].
-  fold ns ls es in G, B. pose proof (built_uids _ _ _ _ _ _ _ _ _ B) as U. pose proof (built_conns _ _ _ _ _ _ _ _ _ B) as C.
+  intros w n H W ns ls es. destruct (convert_good w n H W) as [G [re [ef [wf [ee [we B]]]]]].
+  fold ns ls es in G, B. pose proof (built_uids _ _ _ _ _ _ _ _ _ _ B) as U. pose proof (built_conns _ _ _ _ _ _ _ _ _ _ B) as C.
   unfold names, uids. rewrite U, C. split; [reflexivity|]. split; [|split; [|split]].
-  - intros l Il. destruct B as [B1 B2 _ _ B5 _].
+  - intros l Il. destruct B as [_ B1 B2 _ _ B5 _].
     destruct (Forall2_In_l _ _ _ l B1 Il) as [e1 [I1 [U1 C1]]]. destruct (Forall2_In_l _ _ _ l B2 Il) as [e2 [I2 [U2 C2]]].
     exists e1, e2. rewrite B5. split; [|split; [|auto]].
     + do 4 (apply in_or_app; right). apply in_or_app. left. exact I1.
@@ -96,9 +96,9 @@ Theorem eqpt_facing : forall w n, convert w = Ok n -> wellformed w ->
                 In (UFiber (e_to e) (e_from e) k, UEdfaTo West (e_from e) (e_to e)) (connections n) /\
                 In (UFiber (e_to e) (e_from e) k) (uids n)).
 Proof.
-  intros w n H W e Ie. destruct (convert_good w n H W) as [G [ef [wf [ee [we B]]]]].
-  pose proof (built_uids _ _ _ _ _ _ _ _ _ B) as U. pose proof (built_conns _ _ _ _ _ _ _ _ _ B) as C.
-  destruct B as [_ _ B3 B4 B5 _]. unfold uids. rewrite U, C. split.
+  intros w n H W e Ie. destruct (convert_good w n H W) as [G [re [ef [wf [ee [we B]]]]]].
+  pose proof (built_uids _ _ _ _ _ _ _ _ _ _ B) as U. pose proof (built_conns _ _ _ _ _ _ _ _ _ _ B) as C.
+  destruct B as [_ _ _ B3 B4 B5 _]. unfold uids. rewrite U, C. split.
   - destruct (Forall2_In_l _ _ _ e B3 Ie) as [el [I1 [U1 C1]]].
     destruct (eqpt_chain _ _ _ e East G Ie) as [ch [Hc [M [k K]]]].
     assert (Hconn : In (UEdfaTo East (e_from e) (e_to e), UFiber (e_from e) (e_to e) k)
@@ -296,15 +296,15 @@ Proof.
 Qed.
 
 (* name correction touches nothing but the route list *)
-Theorem correct_route_keeps : forall d ru tf tu r r', correct_route d ru tf tu r = Ok r' ->
+Theorem correct_route_keeps : forall k r r', correct_route k r = Ok r' ->
   r_id r' = r_id r /\ r_src r' = r_src r /\ r_dst r' = r_dst r /\ r_trx r' = r_trx r /\ r_mode r' = r_mode r /\
   r_spacing_hz r' = r_spacing_hz r /\ r_power_dbm r' = r_power_dbm r /\ r_nbch r' = r_nbch r /\
   r_disj r' = r_disj r /\ r_loose r' = r_loose r /\ r_bw_bps r' = r_bw_bps r /\ r_bidir r' = r_bidir r /\
-  In (r_src r) tu /\ In (r_dst r) tu.
+  In (r_src r) (uids_of_kind KTrx (k_graph k)) /\ In (r_dst r) (uids_of_kind KTrx (k_graph k)).
 Proof.
-  intros d ru tf tu r r' H. unfold correct_route in H.
-  destruct (smem (r_src r) tu) eqn:S; cbn [negb] in H; [|discriminate].
-  destruct (smem (r_dst r) tu) eqn:D; cbn [negb] in H; [|discriminate].
-  destruct (correct_loop _ _ _ _ _ _) as [l'|]; cbn [bind] in H; [|discriminate].
+  intros k r r' H. unfold correct_route in H.
+  destruct (smem (r_src r) _) eqn:S; cbn [negb] in H; [|discriminate].
+  destruct (smem (r_dst r) _) eqn:D; cbn [negb] in H; [|discriminate].
+  destruct (surgery _ _ _ _) as [l'|]; cbn [bind] in H; [|discriminate].
   inversion H; subst r'. cbn. apply smem_In in S, D. repeat split; auto.
 Qed.
